@@ -201,7 +201,8 @@ cleanup_pthread:
 void
 qb_log_thread_pause(struct qb_log_target *t)
 {
-	if (t->threaded) {
+	/* no lock (and nothing to pause) until the thread has been started */
+	if (t->threaded && logt_wthread_lock) {
 		(void)qb_thread_lock(logt_wthread_lock);
 	}
 }
@@ -209,7 +210,7 @@ qb_log_thread_pause(struct qb_log_target *t)
 void
 qb_log_thread_resume(struct qb_log_target *t)
 {
-	if (t->threaded) {
+	if (t->threaded && logt_wthread_lock) {
 		(void)qb_thread_unlock(logt_wthread_lock);
 	}
 }
@@ -305,4 +306,9 @@ qb_log_thread_stop(void)
 	(void)qb_thread_lock_destroy(logt_wthread_lock);
 	sem_destroy(&logt_print_finished);
 	sem_destroy(&logt_thread_start);
+
+	/* allow qb_log_thread_start() after a later re-initialisation */
+	logt_wthread_lock = NULL;
+	wthread_active = QB_FALSE;
+	wthread_should_exit = QB_FALSE;
 }
